@@ -350,6 +350,73 @@ theorem closestVector_lattice {q : Int} {rb : M2} {t : V2} {o : CvpOut} (h : clo
       congr 1 <;> ring
 
 
+/-! ### closest vector: the residual is reduced against the (orthogonalised) basis — nearest-plane quality -/
+theorem norm_nonneg' {q : Int} (hq : 0 ≤ q) (x y : Int) : 0 ≤ norm q x y := by
+  unfold norm
+  exact Int.add_nonneg (mul_self_nonneg _) (Int.mul_nonneg (mul_self_nonneg _) hq)
+
+/-- `quat_dim2_lattice_closest_vector` (q ≥ 0): with `b` = first column, `a` = second column and
+    `a* = N(b)·a - <a,b>·b` (the orthogonalised second vector, scaled as in the C code), the residual satisfies
+    `|2<r,b>| ≤ N(b)` and `|2·N(b)·<a*,r>| ≤ N(a*)`: its coordinates along `b` and `a*` are at most 1/2. -/
+theorem closestVector_reduced {q : Int} (hq : 0 ≤ q) {rb : M2} {t : V2} {o : CvpOut} (h : closestVector q rb t = some o) :
+    (2 * bil q o.tmc.x o.tmc.y rb.a00 rb.a10 ≤ norm q rb.a00 rb.a10 ∧
+      -(norm q rb.a00 rb.a10) ≤ 2 * bil q o.tmc.x o.tmc.y rb.a00 rb.a10) ∧
+    (let nb := norm q rb.a00 rb.a10
+     let bl := bil q rb.a01 rb.a11 rb.a00 rb.a10
+     let as0 := rb.a01 * nb - rb.a00 * bl
+     let as1 := rb.a11 * nb - rb.a10 * bl
+     2 * (bil q as0 as1 o.tmc.x o.tmc.y * nb) ≤ norm q as0 as1 ∧
+       -(norm q as0 as1) ≤ 2 * (bil q as0 as1 o.tmc.x o.tmc.y * nb)) := by
+  simp only [closestVector, coefOrth] at h
+  split at h
+  · simp at h
+  · rename_i c1 hc1
+    split at hc1
+    · simp at hc1
+    · rename_i hnas
+      simp only [Option.some.injEq] at hc1
+      split at h
+      · simp at h
+      · rename_i hna
+        simp only [Option.some.injEq] at h
+        subst h
+        have hnapos : 0 < norm q rb.a00 rb.a10 := by
+          have := norm_nonneg' hq rb.a00 rb.a10; omega
+        have hnaspos : 0 < norm q (rb.a01 * norm q rb.a00 rb.a10 - rb.a00 * bil q rb.a01 rb.a11 rb.a00 rb.a10)
+            (rb.a11 * norm q rb.a00 rb.a10 - rb.a10 * bil q rb.a01 rb.a11 rb.a00 rb.a10) := by
+          have := norm_nonneg' hq (rb.a01 * norm q rb.a00 rb.a10 - rb.a00 * bil q rb.a01 rb.a11 rb.a00 rb.a10)
+            (rb.a11 * norm q rb.a00 rb.a10 - rb.a10 * bil q rb.a01 rb.a11 rb.a00 rb.a10)
+          omega
+        have s0 := roundedDiv_spec (bil q (t.x - rb.a01 * c1) (t.y - rb.a11 * c1) rb.a00 rb.a10)
+          (norm q rb.a00 rb.a10) hnapos
+        have s1 := roundedDiv_spec
+          (bil q (rb.a01 * norm q rb.a00 rb.a10 - rb.a00 * bil q rb.a01 rb.a11 rb.a00 rb.a10)
+            (rb.a11 * norm q rb.a00 rb.a10 - rb.a10 * bil q rb.a01 rb.a11 rb.a00 rb.a10) t.x t.y * norm q rb.a00 rb.a10)
+          (norm q (rb.a01 * norm q rb.a00 rb.a10 - rb.a00 * bil q rb.a01 rb.a11 rb.a00 rb.a10)
+            (rb.a11 * norm q rb.a00 rb.a10 - rb.a10 * bil q rb.a01 rb.a11 rb.a00 rb.a10)) hnaspos
+        rw [hc1] at s1
+        constructor
+        · have e : bil q (t.x - rb.a01 * c1 - rb.a00 * roundedDiv (bil q (t.x - rb.a01 * c1) (t.y - rb.a11 * c1) rb.a00 rb.a10) (norm q rb.a00 rb.a10))
+              (t.y - rb.a11 * c1 - rb.a10 * roundedDiv (bil q (t.x - rb.a01 * c1) (t.y - rb.a11 * c1) rb.a00 rb.a10) (norm q rb.a00 rb.a10))
+              rb.a00 rb.a10
+            = bil q (t.x - rb.a01 * c1) (t.y - rb.a11 * c1) rb.a00 rb.a10
+              - roundedDiv (bil q (t.x - rb.a01 * c1) (t.y - rb.a11 * c1) rb.a00 rb.a10) (norm q rb.a00 rb.a10) * norm q rb.a00 rb.a10 := by
+            simp only [bil, norm]; ring
+          simp only
+          rw [e]; exact s0
+        · simp only
+          have e : bil q (rb.a01 * norm q rb.a00 rb.a10 - rb.a00 * bil q rb.a01 rb.a11 rb.a00 rb.a10)
+                (rb.a11 * norm q rb.a00 rb.a10 - rb.a10 * bil q rb.a01 rb.a11 rb.a00 rb.a10)
+                (t.x - rb.a01 * c1 - rb.a00 * roundedDiv (bil q (t.x - rb.a01 * c1) (t.y - rb.a11 * c1) rb.a00 rb.a10) (norm q rb.a00 rb.a10))
+                (t.y - rb.a11 * c1 - rb.a10 * roundedDiv (bil q (t.x - rb.a01 * c1) (t.y - rb.a11 * c1) rb.a00 rb.a10) (norm q rb.a00 rb.a10))
+                * norm q rb.a00 rb.a10
+            = bil q (rb.a01 * norm q rb.a00 rb.a10 - rb.a00 * bil q rb.a01 rb.a11 rb.a00 rb.a10)
+                (rb.a11 * norm q rb.a00 rb.a10 - rb.a10 * bil q rb.a01 rb.a11 rb.a00 rb.a10) t.x t.y * norm q rb.a00 rb.a10
+              - c1 * norm q (rb.a01 * norm q rb.a00 rb.a10 - rb.a00 * bil q rb.a01 rb.a11 rb.a00 rb.a10)
+                (rb.a11 * norm q rb.a00 rb.a10 - rb.a10 * bil q rb.a01 rb.a11 rb.a00 rb.a10) := by
+            simp only [bil, norm]; ring
+          rw [e]; exact s1
+
 /-! ### enumeration: soundness of `found = 1` -/
 section enum
 variable (cond : V2 → Option Elem) (q : Int) (tmc : V2) (b : M2) (nb : Int)
